@@ -15,7 +15,7 @@ Un(o, a) == [k |-> "un", o |-> o, a |-> a]
 Bin(o, l, r) == [k |-> "bin", o |-> o, l |-> l, r |-> r]
 F1(f, a) == [k |-> "f1", f |-> f, a |-> a]
 F2(f, a, b) == [k |-> "f2", f |-> f, a |-> a, b |-> b]
-Atoms == { Var("x"), Var("a"), Num("2.000"), Num("0.500") }
+Atoms == { Var("x"), Var("a"), Num("2.000"), Num("0.500"), [k |-> "f0", f |-> "pi"] }     \* pi: a function of no argument written without parentheses
 UnOps == {"not", "neg", "uminus", "uplus"}
 BinOps == {"pow", "mul", "div", "mod", "add", "sub", "and", "or"}
 Logical(t) == (t.k = "un" /\ t.o = "not") \/ (t.k = "bin" /\ t.o \in {"and", "or"})
